@@ -6,6 +6,8 @@ JOBS = [
     Job('history.20', 'C13/editor.cpp', 'h_history20', 'B', reach=['history20'], timeout=1700, clause='history keeps the last 20 of 0..21 lines in order'),
     Job('history.ref.h3', 'C13/editor.cpp', 'h_history_ref', 'B', defs={'NH': 3}, reach=['history_ref'], timeout=1700, clause='!n / !-n / !! with symbolic and extreme arguments, 3 stored lines'),
     Job('history.ref.h0', 'C13/editor.cpp', 'h_history_ref', 'B', defs={'NH': 0}, reach=['history_ref'], timeout=1700, clause='!n / !-n / !! on an empty history'),
+    Job('front.telnetd.n6', 'C13/frontends.cpp', 'h_telnetd', 'B', defs={'NB': 6}, reach=['front'], timeout=1700, clause='telnet front end: every 6-byte sequence over {IAC SB SE WILL DO DONT NOP WINDOW ECHO q a NUL}, any 2-way segmentation, loop pass between segments or not, session ended by data (deferred exit) or by the peer: no exception / invalid access / traffic for a dead session'),
+    Job('front.tcprpc.n4', 'C13/frontends.cpp', 'h_tcprpc', 'B', defs={'NB': 4}, reach=['front'], timeout=1700, clause='raw-TCP front end: every 4-byte sequence over the same alphabet, any 2-way segmentation, session ended by data or by the peer'),
 ]
 META = dict(
     explanation='Key scanner: KeyEventScanner::next (clang IR -> C, CBMC/cadical) on every byte sequence of length 6: status/result/state stay inside their enumerations, no invalid access. '
